@@ -785,6 +785,29 @@ pub fn corpus(repo: &Path) -> Corpus {
     Corpus { locale_names: names, likely_keys: keys, likely_vals: vals }
 }
 
+/// inputs that carry a well-formed extension with a singleton other than t / u / x, alone and next to
+/// the supported extensions in every legal position (the library may reject or support them; if it
+/// accepts one, the value is a reachable value like any other)
+pub fn other_ext_inputs() -> Vec<Vec<u8>> {
+    let mut out = vec![];
+    for base in ["en", "en-US", "de-Latn-AT-1996", "und"] {
+        for o in ["a-foo", "b-cc", "w-one-two", "0-abc", "9-zz", "a-foo-b-bar", "s-abcdefgh", "v-aa-bb-cc", "y-true"] {
+            for shape in [
+                "{b}-{o}", "{b}-{o}-x-priv", "{b}-{o}-x-aa", "{b}-{o}-x-zz-yy", "{b}-{o}-u-ca-buddhist", "{b}-u-ca-buddhist-{o}", "{b}-u-attr-{o}-x-a", "{b}-t-en-{o}-x-aa",
+                "{b}-{o}-t-h0-hybrid-u-nu-latn-x-a-b", "{b}-t-h0-hybrid-{o}-u-nu-latn", "{b}-u-nu-latn-t-en-us-{o}", "{b}-{o}-t-en", "{b}-x-aa-{o}",
+            ] {
+                let t = shape.replace("{b}", base).replace("{o}", o);
+                out.push(t.to_ascii_uppercase().into_bytes());
+                out.push(t.replace('-', "_").into_bytes());
+                out.push(t.into_bytes());
+            }
+        }
+    }
+    out.sort();
+    out.dedup();
+    out
+}
+
 pub const EXT_SUFFIXES: &[&str] = &[
     "",
     "-u-ca-buddhist",
